@@ -51,6 +51,12 @@ type Hooks struct {
 	// UnknownCall is called for a call through a function value the interpreter
 	// cannot resolve; it returns the state to continue with (e.g. a havocked one).
 	UnknownCall func(st *State, at ssa.Instruction) *State
+	// Args lets a check narrow the arguments of a call (a reviewed assumption
+	// about a parameter, stated explicitly by the check that uses it).
+	Args func(callee *ssa.Function, args []Value) []Value
+	// LoadOverride lets a check replace the value a load yields (case split on
+	// an input byte, e.g. one byte of the cartridge header).
+	LoadOverride func(st *State, at ssa.Instruction, p *Ptr, v Value) (Value, bool)
 	// Elem is called for every element address computation with the array it
 	// indexes (object + path of the array), the index and the array length (-1 unknown).
 	Elem func(st *State, at ssa.Instruction, obj *Object, path string, idx *Int, length int64)
@@ -89,6 +95,8 @@ type Interp struct {
 	// SkipCalls lists functions treated as no-ops returning Top (e.g. host output).
 	nextObj  int
 	hostSyms map[string]Sym
+	pathSplitFn map[*ssa.Function]bool
+	lenCells    map[CellKey]*Object // pseudo objects naming "the slice held by this cell" for '< len' facts
 }
 
 func NewInterp(prog *ssa.Program, repo func(*types.Package) bool) *Interp {
